@@ -4,6 +4,7 @@ import (
 	"fmt"
 	"regexp"
 	"sort"
+	"strconv"
 	"strings"
 	"testing"
 
@@ -23,6 +24,10 @@ type C10Case struct {
 	// Expect (valid texts only): rule name -> tag installed by the text
 	Expect map[string]int64 `json:"expect,omitempty"`
 	Sal    map[string]int64 `json:"sal,omitempty"`
+	// Follow, if set, is a text that is valid by construction; after Text was rejected it is
+	// submitted to the same objects through the same entry points, and to fresh objects in the
+	// same state: a rejected text must have no effect on what a later compile does.
+	Follow []byte `json:"follow,omitempty"`
 }
 
 // c10Reuse, when non-nil (native fuzzing only), caches the four S0 targets between
@@ -222,6 +227,8 @@ func (t *c10Target) observe(names []string) c10Obs {
 	return o
 }
 
+var c10HeaderRe = regexp.MustCompile(`rule "(\w+)" "[^"]*" salience (-?\d+)`)
+
 func (o c10Obs) key(withOrder bool) string {
 	var ex, rs []string
 	for k, v := range o.Exist {
@@ -253,7 +260,7 @@ func guard(f func() error) (err error, pan string) {
 func init() {
 	register(&Prop{
 		ID:   "C10",
-		Rule: "texts: valid rule texts generated by construction (1-4 rules over a 6-name universe overlapping the installed set, bodies drawn from all statement kinds, optionally an assignment of a generated arithmetic expression with bracket groups and call arguments nested up to depth 5 inside operator chains), the same texts after 1-4 token-level mutations (delete, duplicate, swap, replace/insert a vocabulary token, truncate), texts with a duplicated rule (same name), token soups from the language vocabulary, arbitrary strings / bytes; each text is submitted to all five compile entry points (full build, incremental build, pool construction, pool full update, pool incremental update) from a known installed state S0 of tagged observer rules (builders also from the empty state); oracle: every call returns, the five verdicts agree, a rejected text leaves S0 (names, results, execution order) untouched, an accepted text installs exactly the rules it defines (full) or S0 overridden by them (incremental) - by construction for generated texts, differentially across entry points otherwise - and a repeated rule name is rejected by all. Texts whose estimated compile cost (dsl.ParseCost, bracket groups nested inside operator chains) exceeds 400 are not submitted but counted: known finding compile-cost-blowup. Non-trivial: mutated / duplicated-name / soup text, or a text accepted by at least one entry point; distinct by text hash",
+		Rule: "texts: valid rule texts generated by construction (1-4 rules over a 6-name universe overlapping the installed set, bodies drawn from all statement kinds, optionally an assignment of a generated arithmetic expression with bracket groups and call arguments nested up to depth 5 inside operator chains), the same texts after 1-4 token-level mutations (delete, duplicate, swap, replace/insert a vocabulary token, truncate), texts with a duplicated rule (same name), token soups from the language vocabulary, arbitrary strings / bytes; each text is submitted to all five compile entry points (full build, incremental build, pool construction, pool full update, pool incremental update) from a known installed state S0 of tagged observer rules (builders also from the empty state); oracle: every call returns, the five verdicts agree, a rejected text leaves S0 (names, results, execution order) untouched, an accepted text installs exactly the rules it defines (full) or S0 overridden by them (incremental) - by construction for generated texts, differentially across entry points otherwise - and a repeated rule name is rejected by all. Texts whose estimated compile cost (dsl.ParseCost, bracket groups nested inside operator chains) exceeds 400 are not submitted but counted: known finding compile-cost-blowup. Half of the non-valid texts are followed by a valid text submitted through the same entry points to the same objects and to fresh ones: verdict and installed set must be the same (a rejected text leaves nothing behind). Non-trivial: mutated / duplicated-name / soup text, or a text accepted by at least one entry point; distinct by text hash",
 		New:  func() interface{} { return &C10Case{} },
 		Gen: func(t *rapid.T) interface{} {
 			c := &C10Case{State: "s0"}
@@ -299,6 +306,11 @@ func init() {
 				} else {
 					c.Text = []byte(rapid.StringN(0, 40, 120).Draw(t, "string"))
 				}
+			}
+			if c.Kind != "valid" && pct(t, "follow", 50) {
+				exp, sal := c.Expect, c.Sal
+				c.Follow = []byte(c10ValidText(t, c))
+				c.Expect, c.Sal = exp, sal
 			}
 			return c
 		},
@@ -452,6 +464,69 @@ func init() {
 				for _, e := range es {
 					if before[e.name].key(true) != after[e.name].key(true) {
 						x.Violation("reject-not-atomic:"+e.name, "%s rejected the text but the installed rule set changed:\nbefore %s\nafter  %s\ntext %q", e.name, before[e.name].key(true), after[e.name].key(true), truncate(text, 400))
+					}
+				}
+				if len(c.Follow) > 0 && c10Reuse == nil && !x.Failed() {
+					// the rejected text must have no effect on a later compile: same verdict and same
+					// installed set as on fresh objects in the same state
+					x.Class("rejected-text-followed-by-a-valid-text")
+					t2 := string(c.Follow)
+					submit := func(tg *c10Target, name string) (error, string) {
+						switch name {
+						case "BuildRuleFromString":
+							return guard(func() error { return tg.rb.BuildRuleFromString(t2) })
+						case "BuildRuleWithIncremental":
+							return guard(func() error { return tg.rb.BuildRuleWithIncremental(t2) })
+						case "UpdatePooledRules":
+							return guard(func() error { return tg.pool.UpdatePooledRules(t2) })
+						}
+						return guard(func() error { return tg.pool.UpdatePooledRulesIncremental(t2) })
+					}
+					for _, e := range es {
+						var fresh *c10Target
+						var ferr error
+						if e.tg.pool != nil {
+							fresh, ferr = newC10Pool(c.State)
+						} else {
+							fresh, ferr = newC10Builder(c.State)
+						}
+						if ferr != nil {
+							x.Violation("setup", "cannot set up a fresh %s target: %v", e.name, ferr)
+							return
+						}
+						err1, pan1 := submit(e.tg, e.name)
+						err2, pan2 := submit(fresh, e.name)
+						if pan1 != "" || pan2 != "" {
+							x.Violation("panic:follow:"+e.name, "%s panicked on the valid follow-up text (after the rejection: %q, fresh: %q)\nrejected text %q\nfollow-up\n%s", e.name, truncate(pan1, 200), truncate(pan2, 200), truncate(text, 300), t2)
+							return
+						}
+						if (err1 == nil) != (err2 == nil) {
+							x.Violation("rejected-text-left-traces:verdict:"+e.name, "%s gives another verdict on a valid text after it rejected a text than on a fresh object in the same state: after rejection err=%v, fresh err=%v\nrejected text %q\nfollow-up\n%s", e.name, err1, err2, truncate(text, 300), t2)
+							return
+						}
+						o1, o2 := e.tg.observe(names), fresh.observe(names)
+						// the order inside a salience tie is free: compare without order, then check
+						// that the run after the rejection is ordered by the saliences now in force
+						sal := map[string]int64{}
+						if !e.full && c.State == "s0" {
+							for n, v := range c10S0Sal {
+								sal[n] = v
+							}
+						}
+						for _, m := range c10HeaderRe.FindAllStringSubmatch(t2, -1) {
+							v, _ := strconv.ParseInt(m[2], 10, 64)
+							sal[m[1]] = v
+						}
+						for i := 1; i < len(o1.Started) && err1 == nil; i++ {
+							if sal[o1.Started[i-1]] < sal[o1.Started[i]] {
+								x.Violation("rejected-text-left-traces:order:"+e.name, "after rejecting a text and then accepting a valid one, %s runs the rules as %v, saliences %v\nrejected text %q\nfollow-up\n%s", e.name, o1.Started, sal, truncate(text, 300), t2)
+								return
+							}
+						}
+						if k1, k2 := o1.key(false), o2.key(false); k1 != k2 {
+							x.Violation("rejected-text-left-traces:set:"+e.name, "after rejecting a text, %s installs from a valid text a different rule set than on a fresh object in the same state:\nafter rejection %s\nfresh           %s\nrejected text %q\nfollow-up\n%s", e.name, k1, k2, truncate(text, 300), t2)
+							return
+						}
 					}
 				}
 				return
